@@ -729,6 +729,19 @@ def decorate(rng, d):
         if len(same) == 1:                       # a note starting exactly at time 0, pitch / velocity at a range end
             ln = n0[3] - n0[2]
             d['notes'] = [[n0[0], rng.choice([1, 127]), 0, ln] + n0[4:7]] + d['notes'][1:]
+    if rng.random() < 0.07:
+        # consecutive meters sharing the numerator, the second one n/n (a real change that a reader remembering only
+        # part of the last meter would take for a repetition), optionally followed by a change back
+        nn = rng.choice([2, 4, 8, 16])
+        dd = rng.choice([x for x in (2, 4, 8, 16) if x != nn])
+        t0 = rng.choice([0, 0, rng.randint(1, 3 * sec)])
+        t1 = t0 + rng.randint(1, 4) * sec + rng.randint(0, 1000)
+        ts = [[t0, nn, dd], [t1, nn, nn]]
+        if rng.random() < 0.5:
+            ts.append([t1 + rng.randint(1, 4) * sec + rng.randint(0, 1000), rng.choice([nn, 3]), dd])
+        if rng.random() < 0.3:
+            rng.shuffle(ts)
+        d['tsigs'] = ts
     # drop_events_n_seconds_after_last_note
     r = rng.random()
     L = last_end(d)
@@ -877,6 +890,11 @@ def corpus():
               ccs=[(200000 * 10400000, 64, 127, 1, 33, 0)], ksigs=[(200000 * 9999999, 4, 1)]),
         _desc(tpq=480, tempos=[(0, 250000), (250000 * 6000000 + 5, 400000)], notes=[n(36, 250000 * 10000001, 250000 * 10000001 + 400000 * 3, dr=1)],
               route='file'),
+        # a meter change n/d -> n/n (same numerator, new denominator equal to the numerator) is a real change
+        _desc(tsigs=[(0, 2, 4), (2 * sec, 2, 2)], notes=[n(60, sec, 3 * sec)]),
+        _desc(tsigs=[(0, 4, 8), (sec + 5, 4, 4), (3 * sec, 4, 8)], notes=[n(60, sec, 4 * sec)]),
+        _desc(tsigs=[(0, 8, 4), (2 * sec + 1, 8, 8)], notes=[n(60, sec, 3 * sec, ins=1)], route='file'),
+        _desc(tsigs=[(0, 3, 4), (sec, 3, 8), (2 * sec, 4, 4), (3 * sec, 4, 16), (4 * sec, 16, 16)], notes=[n(60, sec, 5 * sec)]),
         # same tempo twice in a row (the loader merges them)
         _desc(tempos=[(0, 600000), (sec, 600000), (2 * sec, 500000)], notes=[n(64, sec, 3 * sec, ins=1, dr=1)]),
     ]
